@@ -28,7 +28,10 @@ def main():
     shard = json.load(open(shardfile))
     rep = Reporter(prop, shard)
     covdir = os.environ.get("VERIF_COV")
-    if covdir:
+    # line reach of the code under test: always on where it is cheap (sys.monitoring, Python 3.12+), so that every
+    # evidence file can say how much of the anchored files this very run executed
+    reach = covdir or (hasattr(sys, "monitoring") and not os.environ.get("VERIF_NOREACH"))
+    if reach:
         from harness import linecov
 
         linecov.start(boot.REPO)
@@ -50,6 +53,8 @@ def main():
     if covdir:
         linecov.dump(os.path.join(covdir, "%s-%s.json" % (prop, shard.get("name", "shard"))))
     out = rep.dump()
+    if reach:
+        out["linecov"] = linecov.snapshot()
     out["status"] = status
     out["wall"] = time.time() - t0
     with open(outfile, "w") as f:
